@@ -121,14 +121,16 @@ class C01(Check):
         @given(gens.core_grammar(nrules=6, depth=5, mode=mode),
                st.lists(st.text(alphabet='abZ', min_size=4, max_size=9), min_size=4, max_size=10))
         def prop(g, longer):
-            if runner.time_left() < 0:
-                res.truncated = True
+            if runner.over_budget(res):     # (no draws inside this body)
                 return
             extra = [t.encode('latin-1') if mode == 'bytes' else t for t in longer]
             entries = [r[1] for r in g.rules]
             eval_grammar(res, g, entries, inputs3 + extra, 'hyp')
             res.hist['hyp_grammars'] += 1
-        prop()
+        try:
+            prop()
+        except runner.StopTask:
+            pass
 
     def replay(self, case):
         return diff.replay_case(case)
